@@ -60,12 +60,14 @@ def make_vias(unicode, prefix):
             return data[4:-2]
         return f
 
-    def via_client_op(key):
-        net.begin_call(1)
-        net.wire_log.clear()
-        cl.delete(key, noreply=True)
-        data = b"".join(d for _, d in net.wire_log)
-        return data[len(b"delete "):-len(b" noreply\r\n")]
+    def via_delete(client):
+        def f(key):
+            net.begin_call(1)
+            net.wire_log.clear()
+            client.delete(key, noreply=True)
+            data = b"".join(d for _, d in net.wire_log)
+            return data[len(b"delete "):-len(b" noreply\r\n")]
+        return f
 
     return {
         "helper": lambda k: check_key_helper(k, unicode, pb),
@@ -74,7 +76,8 @@ def make_vias(unicode, prefix):
         "hash-get": via_get(hc),
         "hash-get-ignore_exc": via_get(hci),
         "pooled-get-ignore_exc": via_get(pci),
-        "client-delete": via_client_op,
+        "client-delete": via_delete(cl),
+        "pooled-delete": via_delete(pc),
     }
 
 
@@ -115,7 +118,7 @@ def main(tier, rep):
     # PooledClient(ignore_exc=True).get(<illegal key>) swallows the rejection (returns the default, sends nothing)
     # where Client raises: outside observe_at of C20 (check_key / check_key_helper) and arguably what ignore_exc
     # documents; reported in DESIGN.md as an observation, not used for verdicts.
-    VIAS = ["helper", "client", "pooled", "hash-get", "client-delete", "hash-get-ignore_exc"]
+    VIAS = ["helper", "client", "pooled", "hash-get", "client-delete", "hash-get-ignore_exc", "pooled-delete"]
     n = 0
     for row in table:
         cls = BYTE_CLASS if not row["isstr"] else CP_CLASS
